@@ -501,7 +501,7 @@ func gen(t *rapid.T) Case {
 	}
 	c := Case{Runs: 4}
 	if rapid.IntRange(0, 2).Draw(t, "deviations") == 0 {
-		if l := schema.AddDeviations(t, set, schema.DevOpts{Modules: rapid.IntRange(1, 2).Draw(t, "dev-modules"), Max: 4, NotSupported: true}); len(l) > 0 {
+		if l := schema.AddDeviations(t, set, schema.DevOpts{Modules: rapid.IntRange(1, 2).Draw(t, "dev-modules"), Max: 4, NotSupported: true, Operations: true}); len(l) > 0 {
 			feats = append(feats, "deviations")
 			if l["deviation/several-deviates"] > 0 {
 				feats = append(feats, "several-deviates")
